@@ -1,11 +1,11 @@
 #!/bin/sh
-# usage: seedtest.sh <patch.diff> <property id> [more ids]   -- apply a seeded change to /repo, run quick checks, revert
+# usage: seedtest.sh <patch.diff> <property id> [more ids]
+# apply a seeded change in a scratch worktree of /repo's HEAD, run quick checks against it (VERIF_REPO), remove it.
 p="$1"; shift
-cd /repo || exit 2
-git diff --quiet || { echo "/repo has uncommitted changes"; exit 2; }
-git apply --check "$p" || { echo "patch does not apply"; exit 2; }
-git apply "$p"
+wt=/tmp/st_wt_$$
+git -C /repo worktree add -q --detach "$wt" HEAD || exit 2
+( cd "$wt" && git apply "$p" ) || { echo "patch does not apply"; git -C /repo worktree remove --force "$wt"; exit 2; }
 for id in "$@"; do
-  (cd /verif && ./check "$id" --tier quick 2>&1 | grep -v CostModel | grep -E "VIOLATION|KNOWN|MACHINERY|^\[C|api=" | cut -c1-300 | head -12)
+  (cd /verif && VERIF_REPO="$wt" ./check "$id" --tier quick 2>&1 | grep -v CostModel | grep -E "VIOLATION|KNOWN|MACHINERY|^\[C|api=" | cut -c1-300 | head -12)
 done
-git checkout -- . && git status --short | grep -v model.bif
+git -C /repo worktree remove --force "$wt"
